@@ -105,6 +105,13 @@ def bipartite(rep):
     rep.ob("O16.1", "SRC", r, norm(origin(rdefs, c.func.value)) == "CRNHyperGraph()" and bool(returns_of(r.node)) and norm(returns_of(r.node)[-1].value) == HV, c.func,
            "the reader fills and returns a fresh network")
     RMAP, PMAP = (norm(a) for a in c.args[:2]) if len(c.args) >= 2 else (None, None)
+    # a reaction node is re-added unless BOTH of its sides are empty: source (0 -> A) and sink (A -> 0) reactions have one empty side
+    from ..facts import guard_atoms
+    rpm = parent_map(r.node)
+    atoms_ = [(norm(t_), s_) for t_, s_ in guard_atoms(guards_of(rpm, c, r.node, early=True))]
+    one_sided = [a_ for a_ in atoms_ if a_ in ((RMAP, True), (PMAP, True), (f"len({RMAP}) > 0", True), (f"len({PMAP}) > 0", True))]
+    rep.ob("O16.1", "SRC", r, not one_sided, f"add_rxn under {atoms_}", "a reaction with an empty reactant side or an empty product side is still re-imported "
+           "(only a reaction node with no species at all is skipped)" + (f": the import requires {one_sided[0][0]} to be non-empty" if one_sided else ""), node=c)
     rl = enclosing_loops(parent_map(r.node), c, r.node)
     rnode = norm(rl[0].target) if rl else None
     dirs = {}
@@ -422,7 +429,36 @@ def _formatter(rep, pr):
     return cands[0]
 
 
+def parse_keeps_multiplicity(rep):
+    """printed reactions are parsed back one line -> one reaction: the lines are walked as a sequence.  A dict keyed by the line text (built from
+    a list input) collapses a reaction that occurs twice under the same rule into one - the printed multiset is not the parsed one."""
+    fi = rep.f(HG, "CRNHyperGraph.parse_rxns")
+    pm = parent_map(fi.node)
+    defs = local_defs(fi.node)
+    loops = [l for l in walk_local(fi.node) if isinstance(l, ast.For) and any(isinstance(c, ast.Call) and call_name(c) in ("add_rxn_from_str", "add_rxn") for c in walk_local(l))]
+    rep.need("SRC", len(loops), 1, "add loop in parse_rxns")
+    lp = loops[0]
+    it = lp.iter
+    base = it.func.value if isinstance(it, ast.Call) and isinstance(it.func, ast.Attribute) and it.func.attr in ("items", "keys") else it
+    keyed = []
+    if isinstance(base, ast.Name) and base.id not in fi.params:
+        for d_ in defs.get(base.id, []):
+            v = d_.value
+            leaves = if_leaves(v) if v is not None else []
+            for leaf in leaves:
+                if (isinstance(leaf, ast.Call) and norm(leaf.func) == "dict" and leaf.args and not (isinstance(leaf.args[0], ast.Name) and leaf.args[0].id in fi.params and False)) \
+                        or isinstance(leaf, ast.DictComp) or (isinstance(leaf, ast.Dict) and not leaf.keys):
+                    # dict(<the mapping parameter itself>) keeps an input that already is a mapping: not a collapse
+                    if isinstance(leaf, ast.Call) and len(leaf.args) == 1 and isinstance(leaf.args[0], ast.Name) and leaf.args[0].id == fi.params[1]:
+                        continue
+                    keyed.append(d_.stmt)
+    rep.ob("O16.3", "SRC", fi, not keyed, alpha(keyed[0], fi.node) if keyed else lp.iter, "reaction lines are parsed as a sequence (one reaction per line, repeated lines kept)" +
+           (": the lines of a list input become keys of a dict, so textually identical lines (a reaction listed twice under one rule) collapse into one" if keyed else ""),
+           node=keyed[0] if keyed else lp)
+
+
 def strings(rep):
+    rep.run(parse_keeps_multiplicity)
     pr = rep.f(CV, "hypergraph_to_rxn_strings")
     fmt = _formatter(rep, pr)
     FMT = fmt.node.name
